@@ -20,7 +20,7 @@ PROPERTY = "C17"
 LEVEL = "exploration"
 RULE = ("Hypothesis-generated object graphs over a class family with one class per reduction shape (instance dict; __slots__ with "
         "and without __dict__; __getstate__/__setstate__; __getnewargs__; __reduce__ returning 2-5 tuples with list and dict "
-        "items; subclasses of list, dict, set, tuple, str, int; enum; namedtuple; frozen dataclass) plus tuples, complex, "
+        "items; subclasses of list, dict, set, tuple, str, int; enum; namedtuple; frozen dataclass, a class whose reduction is registered with copyreg) plus tuples, complex, compiled regular expressions, "
         "frozenset, OrderedDict, bytearray, range, Decimal, Fraction, timedelta, dates, classes / functions / builtins / modules "
         "by name, nested in each other and in safe containers (also as dict keys and set members), with a sharing pass and "
         "cycles by construction (through lists, dicts and plain instance dicts = constructible; through tuples, constructor "
@@ -260,6 +260,15 @@ class Builder:
         if k == "intsub":
             self.info["shapes"].add("intsub")
             return co.IntSub(b[1])
+        if k == "registered":
+            self.info["shapes"].add("registered")
+            out = co.Registered(b[1])
+            self.containers.append((out, "registered"))
+            return out
+        if k == "regex":
+            self.info["shapes"].add("regex")
+            import re as _re
+            return _re.compile(["a+", "(x|y)*z", "^\\d+$"][b[1] % 3], [0, _re.I, _re.M | _re.S][b[1] % 3])
         if k == "frozen":
             self.info["shapes"].add("frozen")
             return co.Frozen(b[1], "y%d" % (b[1] % 3))
@@ -268,7 +277,7 @@ class Builder:
 
 _MISSING = object()
 IMMUTABLE_VALUE = (type(None), bool, int, float, str, bytes)
-BY_EQ = (complex, decimal.Decimal, fractions.Fraction, datetime.timedelta, datetime.date, datetime.datetime, range, bytearray)
+BY_EQ = (type(re.compile("")), complex, decimal.Decimal, fractions.Fraction, datetime.timedelta, datetime.date, datetime.datetime, range, bytearray)
 
 
 def state_of(o):
@@ -520,7 +529,8 @@ def blueprints(max_leaves=14):
     leaf = st.one_of(scalars().map(lambda v: ("s", v)), scalars().map(lambda v: ("s", v)),
                      st.integers(0, 8).map(lambda i: ("named", i)), st.integers(0, 1).map(lambda i: ("enum", i)),
                      st.sampled_from(["s1", "", "x y"]).map(lambda s: ("strsub", s)), st.integers(-3, 3).map(lambda i: ("intsub", i)),
-                     st.integers(0, 5).map(lambda i: ("frozen", i)))
+                     st.integers(0, 5).map(lambda i: ("frozen", i)), st.integers(0, 5).map(lambda i: ("registered", i)),
+                     st.integers(0, 5).map(lambda i: ("regex", i)))
     ref = st.integers(0, 40).map(lambda n: ("ref", n))
     attr = st.sampled_from(["a", "b", "c", "name", "value"])
     hkey = st.one_of(hashable_scalars().map(lambda v: ("s", v)), hashable_scalars().map(lambda v: ("s", v)),
@@ -615,7 +625,7 @@ def arms(tier):
 
 REQUIRED_CLASSES = ["shape:plain", "shape:slots", "shape:slotsdict", "shape:getset", "shape:newargs", "shape:reduced", "shape:listsub",
                     "shape:dictsub", "shape:setsub", "shape:tuplesub", "shape:strsub", "shape:intsub", "shape:enum", "shape:nt", "shape:frozen",
-                    "shape:named", "shape:module", "shape:t", "shape:fs", "shape:od", "sharing", "cycle:constructible", "cycle:unconstructible",
+                    "shape:named", "shape:module", "shape:registered", "shape:regex", "shape:t", "shape:fs", "shape:od", "sharing", "cycle:constructible", "cycle:unconstructible",
                     "instance-as-key", "text:tuple/complex/name-subset-only", "text:has-object-tags"]
 
 
